@@ -179,6 +179,10 @@ def main():
                         if variant == "re" and npart == 2 and n > 1 and quick:
                             continue
                         items.append(("expec", variant, singles, n, npart, mt))
+    if not quick:
+        # fourth order expectation value: first order with two overlap factors in the norm factor
+        items.append(("expec", "mp", False, 4, 1, (2, 2)))
+        items.append(("expec", "mp", True, 4, 1, (2, 2)))
     results = pmap(run_case, items, limit=900 if quick else 3600, workers=14)
     guards = [0, 0]
     for r in results:
@@ -198,6 +202,21 @@ def main():
         if "guard" in r:
             guards[1] += 1
             guards[0] += r["guard"] == "differ"
+    # order expansion of the norm factor 1/(1 + sum_k S^(k)) for all overlap values
+    from vlib import series
+    from adcgen import GroundState, Operators
+    gs0 = GroundState(Operators("mp"))
+    for r in series.check(lambda n, mo: gs0.expand_norm_factor(n, mo), half=False,
+                          orders=range(0, 9 if quick else 13), timeout_ms=TIMEOUT, seed=seed()):
+        api = f"GroundState.expand_norm_factor({r['order']}, min_order={r['min_order']})"
+        run.add_outcome("series/norm_factor", r, sample={"api": api, "expansion": r["out"][:160], "verdict": r["status"]}
+                        if r["status"] == "equal" and r["order"] >= 4 else None,
+                        distinct_key=api, nontrivial=r["order"] >= r["min_order"])
+        if r["status"] == "differ":
+            run.violation(f"{api}", f"{api} = {r['out'][:200]} is not the lambda^{r['order']} coefficient of 1/(1+x)",
+                          {"api": api, "output": r["out"], "witness": r.get("witness")})
+        elif r["status"] == "harness":
+            run.harness_error(f"series: solver model does not reproduce for {api}")
     run.cov["vacuity_guard"] = {"perturbed_outputs_detected": guards[0], "tried": guards[1]}
     if guards[1] and guards[0] < guards[1] // 2:
         run.harness_error(f"vacuity guard: only {guards[0]}/{guards[1]} perturbed outputs distinguishable")
@@ -217,6 +236,7 @@ def main():
         "z3_timeout_ms": TIMEOUT}
     run.cov["rule"] = "one case per (API call, model); non-trivial = non-zero derived expression"
     run.assumptions += [
+        "norm-factor expansion: overlap contributions are commuting unknowns s_k; reference coefficients from the recursion c (1 + x) = 1",
         "lower-order wavefunctions are parametrised by free amplitude unknowns with adcgen's documented sign/prefactor convention; the claim for order n follows by induction from the identities of orders <= n",
         "MP closed-form amplitudes: canonical orbitals (f_pq = delta_pq e_p); 1/(orbital-energy form) is an unconstrained unknown shared by both sides (sound for equality)",
         "bra amplitudes (t<n>cc) are independent unknowns",
